@@ -211,6 +211,14 @@ theorem loop_render (le : Bool) (v : Nat) (items : List Spec.Item) (acc : List E
         · rfl
         · rfl
 
+/-- A record length of zero is the end of the keytab: whatever follows it (old contents of a file that was
+    shortened in place) is not read. -/
+theorem loop_end_marker (le : Bool) (v fuel : Nat) (stale : Bytes) (acc : List Entry) :
+    Impl.loop le v (fuel + 1) (enc32 le 0 ++ stale) acc = .ok acc := by
+  unfold Impl.loop
+  rw [dec32_enc32 le 0 (by omega) stale]
+  simp
+
 /-! ## property theorems -/
 
 /-- every item is at least 4 bytes long, so the input length bounds the number of items -/
